@@ -218,7 +218,16 @@ func (c *Ctx) mergerClass(fn *ssa.Function) string {
 			}
 		}
 	}
+	for _, b := range fn.Blocks {
+		for _, in := range b.Instrs {
+			if call, ok := in.(*ssa.Call); ok && strings.HasSuffix(staticName(&call.Call), "slices.Contains") {
+				callsConv["slices.Contains"] = true
+			}
+		}
+	}
 	switch {
+	case callsConv["convertIntoSequence"] && callsConv["slices.Contains"]:
+		return "self-dedup"
 	case callsConv["convertIntoMapping"] || callsConv["mergeMappings"]:
 		return "mapping"
 	case callsConv["convertIntoSequence"]:
@@ -285,6 +294,9 @@ func (c *Ctx) A4(rule string) []report.Obligation {
 			case cls == "replace":
 				o.Status, o.Pos = report.Discharged, row.Pos
 				o.Why = "merger replaces the value: nothing is appended"
+			case cls == "self-dedup":
+				o.Status, o.Pos = report.Discharged, row.Pos
+				o.Why = "merger " + row.Func + " filters entries already present (slices.Contains) before appending"
 			default:
 				o.Status = report.Violation
 				o.Why = "schema demands uniqueItems, sequences are appended on merge, and no unicity indexer (nor a mapping-producing merger) is registered: two files repeating an entry fail validation instead of collapsing it"
